@@ -193,6 +193,12 @@ inductive CStep (s : St α β ε) : St α β ε → Prop where
   | exitLeave (r : Option ε) (closed : Bool) (hc : s.c = .exitWait r closed)
       (hk : s.exitKind = .leaveRunning) :
       CStep s { s with c := .done r closed }
+  | exitErrKill (e : ε) (closed : Bool) (hc : s.c = .exitWait (some e) closed)
+      (hk : s.exitKind = .killOnError) :
+      CStep s { s with futs := s.futs.map kill, c := .done (some e) closed }
+  | exitErrNone (closed : Bool) (hc : s.c = .exitWait none closed)
+      (hk : s.exitKind = .killOnError) :
+      CStep s { s with c := .done none closed }
 
 theorem step_consumer {s s' : St α β ε} (h : step s .consumer = some s') : CStep s s' := by
   simp only [step] at h
@@ -242,6 +248,9 @@ theorem step_consumer {s s' : St α β ε} (h : step s .consumer = some s') : CS
       · cases h
     · injection h with h; subst h; exact .exitKill _ _ ‹_› ‹_›
     · injection h with h; subst h; exact .exitLeave _ _ ‹_› ‹_›
+    · split at h <;> (injection h with h; subst h)
+      · exact .exitErrKill _ _ ‹_› ‹_›
+      · exact .exitErrNone _ ‹_› ‹_›
   · cases h
 
 theorem step_resume {s s' : St α β ε} (h : step s .resume = some s') :
@@ -357,7 +366,8 @@ def FTrans (s : St α β ε) (t : Tid) (i : Nat) (x : α) (st st' : FState β ε
   (t = .start ∧ st = .pending ∧ st' = .running) ∨
   (t = .finish i ∧ st = .running ∧ st' = .done (s.f x)) ∨
   (t = .consumer ∧ s.c = .cancel ∧ s.termKind = .cancelQueued ∧ st = .pending ∧ st' = .cancelled) ∨
-  (t = .consumer ∧ ((s.termKind = .terminatePool ∧ s.c = .cancel) ∨ (s.exitKind = .killAll ∧ ∃ r cl, s.c = .exitWait r cl)) ∧
+  (t = .consumer ∧ ((s.termKind = .terminatePool ∧ s.c = .cancel) ∨ (s.exitKind = .killAll ∧ ∃ r cl, s.c = .exitWait r cl) ∨
+       (s.exitKind = .killOnError ∧ ∃ e cl, s.c = .exitWait (some e) cl)) ∧
      isActive st = true ∧ st' = .cancelled)
 
 theorem getElem?_map_kill {futs : List (α × FState β ε)} {i : Nat} {x : α} {st : FState β ε}
@@ -395,7 +405,13 @@ theorem futs_step {s s' : St α β ε} {t : Tid} {i : Nat} {x : α} {st : FState
       refine ⟨_, getElem?_map_kill hi, ?_⟩
       by_cases ha : isActive st = true
       · simp only [ha, if_true]
-        exact .inr (.inr (.inr (.inr ⟨rfl, .inr ⟨hk, r, cl, hc⟩, ha, rfl⟩)))
+        exact .inr (.inr (.inr (.inr ⟨rfl, .inr (.inl ⟨hk, r, cl, hc⟩), ha, rfl⟩)))
+      · simp only [ha]; exact .inl rfl
+    case exitErrKill e cl hc hk =>
+      refine ⟨_, getElem?_map_kill hi, ?_⟩
+      by_cases ha : isActive st = true
+      · simp only [ha, if_true]
+        exact .inr (.inr (.inr (.inr ⟨rfl, .inr (.inr ⟨hk, e, cl, hc⟩), ha, rfl⟩)))
       · simp only [ha]; exact .inl rfl
     all_goals exact ⟨st, hi, .inl rfl⟩
   | resume =>
@@ -444,6 +460,7 @@ theorem futs_step_new {s s' : St α β ε} {t : Tid} {i : Nat} {x : α} {st' : F
       simp_all
     case cancelTerminate hc ht => simp [hn] at hi
     case exitKill r cl hc hk => simp [hn] at hi
+    case exitErrKill e cl hc hk => simp [hn] at hi
     all_goals simp [hn] at hi
   | resume =>
     rcases step_resume h with ⟨y, hc, rfl⟩ | ⟨hc, rfl⟩ <;> simp [hn] at hi
@@ -471,14 +488,25 @@ def NoActive (futs : List (α × FState β ε)) : Prop :=
   ∀ (i : Nat) x st, futs[i]? = some (x, st) → isActive st = false
 def NoCancelled (futs : List (α × FState β ε)) : Prop :=
   ∀ (i : Nat) x st, futs[i]? = some (x, st) → st ≠ .cancelled
+/-- the first `k` futures (those already popped from `q`) are neither pending nor running -/
+def PoppedIdle (futs : List (α × FState β ε)) (k : Nat) : Prop :=
+  ∀ (i : Nat) x st, futs[i]? = some (x, st) → i < k → isActive st = false
+
+/-- the exits after which nothing is pending or running once control is back at the caller:
+    `waitAll`, `killAll`, `killOnError` with an exception, and — for every flavour, even
+    `leaveRunning` — normal exhaustion and `close` with `terminatePool` -/
+def QuiescentExit (ek : ExitKind) (tk : TermKind) (r : Option ε) (closed : Bool) : Prop :=
+  ek = .waitAll ∨ ek = .killAll ∨ (ek = .killOnError ∧ r ≠ none) ∨ (r = none ∧ closed = false) ∨
+    (closed = true ∧ tk = .terminatePool)
 
 /-- what is known when an exception / normal end / close travels out of the `try` block -/
 def ExitInv (tk : TermKind) (f : α → Except ε β) (src₀ : List α) (ending : Option ε)
     (s : St α β ε) (r : Option ε) (closed : Bool) : Prop :=
   (closed = true → tk ≠ .nothing → NoPending s.futs) ∧
+  (closed = true → tk = .terminatePool → NoActive s.futs) ∧
   (closed = false →
     match r with
-    | none => s.delivered.length = src₀.length
+    | none => s.delivered.length = src₀.length ∧ NoActive s.futs
     | some e => (ending = some e ∧ s.src = []) ∨ src₀[s.delivered.length]?.map f = some (.error e))
 
 /-- the part of the invariant that depends on the consumer's program point -/
@@ -493,7 +521,7 @@ def PhaseInv (b : Nat) (ek : ExitKind) (tk : TermKind) (f : α → Except ε β)
   | .drain => s.pulled = s.futs.length ∧ s.src = []
   | .cancel => True
   | .exitWait r closed => ExitInv tk f src₀ ending s r closed
-  | .done r closed => ExitInv tk f src₀ ending s r closed ∧ (ek ≠ .leaveRunning → NoActive s.futs)
+  | .done r closed => ExitInv tk f src₀ ending s r closed ∧ (QuiescentExit ek tk r closed → NoActive s.futs)
 
 structure Inv (w b : Nat) (ek : ExitKind) (tk : TermKind) (f : α → Except ε β) (src₀ : List α)
     (ending : Option ε) (s : St α β ε) : Prop where
@@ -522,13 +550,15 @@ structure Inv (w b : Nat) (ek : ExitKind) (tk : TermKind) (f : α → Except ε 
   bufInv : s.futs.length ≤ s.delivered.length + b
   startedLe : s.started + nPending s.futs ≤ s.futs.length
   runLe : nRunning s.futs ≤ w
-  /-- before any error/close: everything popped was delivered, nothing is cancelled -/
-  liveInv : live s.c = true → s.futs.length = s.delivered.length + s.q.length ∧ NoCancelled s.futs
+  /-- before any error/close: everything popped was delivered, nothing is cancelled, and the
+      popped futures are finished -/
+  liveInv : live s.c = true → s.futs.length = s.delivered.length + s.q.length ∧ NoCancelled s.futs ∧
+    PoppedIdle s.futs (s.futs.length - s.q.length)
   phase : PhaseInv b ek tk f src₀ ending s
 
 theorem inv_init (w b : Nat) (ek : ExitKind) (tk : TermKind) (f : α → Except ε β) (src₀ : List α)
     (ending : Option ε) : Inv w b ek tk f src₀ ending (init w b ek tk f src₀ ending) := by
-  constructor <;> simp [init, nPending, nRunning, live, NoCancelled, PhaseInv]
+  constructor <;> simp [init, nPending, nRunning, live, NoCancelled, PoppedIdle, PhaseInv]
 
 /-! ### helper lemmas for the preservation proof -/
 
@@ -613,15 +643,58 @@ theorem drop_cons {l : List α} {n : Nat} {x : α} {rest : List α} (h : x :: re
   · have : (l.drop n).drop 1 = l.drop (n + 1) := by rw [List.drop_drop]
     rw [← h] at this; simpa using this
 
+theorem ExitInv_congr {tk : TermKind} {f : α → Except ε β} {src₀ : List α}
+    {ending : Option ε} {s s' : St α β ε} {r : Option ε} {closed : Bool} (hsrc : s'.src = s.src)
+    (hd : s'.delivered = s.delivered) (hpend : NoPending s.futs → NoPending s'.futs)
+    (hact : NoActive s.futs → NoActive s'.futs) (h : ExitInv tk f src₀ ending s r closed) :
+    ExitInv tk f src₀ ending s' r closed := by
+  obtain ⟨h1, h2, h3⟩ := h
+  refine ⟨fun a c => hpend (h1 a c), fun a c => hact (h2 a c), fun a => ?_⟩
+  have h4 := h3 a
+  cases r with
+  | none => exact ⟨hd ▸ h4.1, hact h4.2⟩
+  | some e => simp only at h4 ⊢; rw [hsrc, hd]; exact h4
+
 theorem PhaseInv_congr {b : Nat} {ek : ExitKind} {tk : TermKind} {f : α → Except ε β} {src₀ : List α}
     {ending : Option ε} {s s' : St α β ε} (hc : s'.c = s.c) (hp : s'.pulled = s.pulled)
     (hl : s'.futs.length = s.futs.length) (hq : s'.q.length = s.q.length) (hsrc : s'.src = s.src)
     (hd : s'.delivered = s.delivered) (hpend : NoPending s.futs → NoPending s'.futs)
     (hact : NoActive s.futs → NoActive s'.futs) (h : PhaseInv b ek tk f src₀ ending s) :
     PhaseInv b ek tk f src₀ ending s' := by
-  unfold PhaseInv ExitInv at *
+  unfold PhaseInv at *
   rw [hc]
-  split <;> simp_all
+  split <;> rename_i heq <;> simp only [heq] at h <;>
+    first
+    | exact ExitInv_congr hsrc hd hpend hact h
+    | exact ⟨ExitInv_congr hsrc hd hpend hact h.1, fun hq => hact (h.2 hq)⟩
+    | simp_all
+
+/-- without the help of `__exit__` (or of the `killOnError` terminate), quiescence after an exit
+    comes from `ExitInv`: normal exhaustion, or `close` with `terminatePool` -/
+theorem quiescent_of_exitInv {ek : ExitKind} {tk : TermKind} {f : α → Except ε β} {src₀ : List α}
+    {ending : Option ε} {s : St α β ε} {r : Option ε} {closed : Bool}
+    (h : ExitInv tk f src₀ ending s r closed) (h1 : ek ≠ .waitAll) (h2 : ek ≠ .killAll)
+    (h3 : ¬ (ek = .killOnError ∧ r ≠ none)) : QuiescentExit ek tk r closed → NoActive s.futs := by
+  rintro (hq | hq | hq | ⟨rfl, rfl⟩ | ⟨rfl, hq⟩)
+  · exact absurd hq h1
+  · exact absurd hq h2
+  · exact absurd hq h3
+  · exact (h.2.2 rfl).2
+  · exact h.2.1 rfl hq
+
+theorem PoppedIdle.pop {futs : List (α × FState β ε)} {k i : Nat} {y : α} {r : Except ε β}
+    (h : PoppedIdle futs k) (hf : futs[i]? = some (y, .done r)) (hk : k = i) :
+    PoppedIdle futs (k + 1) := by
+  intro j z st hj hlt
+  by_cases hji : j = i
+  · subst hji; rw [hf] at hj; injection hj with hj; injection hj with _ h2; subst h2; rfl
+  · exact h j z st hj (by omega)
+
+theorem PoppedIdle.noActive {futs : List (α × FState β ε)} {k : Nat}
+    (h : PoppedIdle futs k) (hk : futs.length ≤ k) : NoActive futs := by
+  intro j z st hj
+  have := getElem?_lt hj
+  exact h j z st hj (by omega)
 
 /-! ### preservation: the consumer -/
 
@@ -674,11 +747,11 @@ theorem inv_consumer (hI : Inv w b ek tk f src₀ ending s) (h : step s .consume
     refine { hI with liveInv := ?_, phase := ?_ }
     · intro h; simp [live] at h
     · simp only [PhaseInv, ExitInv]
-      refine ⟨by simp, fun _ => .inl ⟨?_, hs⟩⟩
+      refine ⟨by simp, by simp, fun _ => .inl ⟨?_, hs⟩⟩
       rw [← hI.hend]; exact he
   case waitOk x i rest y v hc hq hf =>
     simp only [PhaseInv, hc] at hph
-    obtain ⟨hlen, hnc⟩ := hI.liveInv (by simp [hc, live])
+    obtain ⟨hlen, hnc, hpi⟩ := hI.liveInv (by simp [hc, live])
     obtain ⟨hi, hr⟩ := range_cons hq hI.qRange hI.qLen
     have hq' : s.q.length = rest.length + 1 := by simp [hq]
     have hiD : i = s.delivered.length := by omega
@@ -694,11 +767,15 @@ theorem inv_consumer (hI : Inv w b ek tk f src₀ ending s) (h : step s .consume
       have : j ≠ i := by rintro rfl; rw [hf] at hj; subst hst; simp at hj
       simp <;> omega
     · simp <;> omega
-    · intro _; exact ⟨by simp <;> omega, hnc⟩
+    · intro _
+      refine ⟨by simp <;> omega, hnc, ?_⟩
+      have := hpi.pop hf (by omega)
+      have he : s.futs.length - rest.length = s.futs.length - s.q.length + 1 := by omega
+      simpa [he] using this
     · simp only [PhaseInv]; exact ⟨hph.1, hph.2.1, by omega⟩
   case waitErr x i rest y e hc hq hf =>
     simp only [PhaseInv, hc] at hph
-    obtain ⟨hlen, hnc⟩ := hI.liveInv (by simp [hc, live])
+    obtain ⟨hlen, hnc, hpi⟩ := hI.liveInv (by simp [hc, live])
     obtain ⟨hi, hr⟩ := range_cons hq hI.qRange hI.qLen
     have hq' : s.q.length = rest.length + 1 := by simp [hq]
     have hiD : i = s.delivered.length := by omega
@@ -713,11 +790,11 @@ theorem inv_consumer (hI : Inv w b ek tk f src₀ ending s) (h : step s .consume
       simp <;> omega
     · intro h; simp [live] at h
     · simp only [PhaseInv, ExitInv]
-      refine ⟨by simp, fun _ => .inr ?_⟩
+      refine ⟨by simp, by simp, fun _ => .inr ?_⟩
       rw [← hiD, hy]; simp [hv]
   case submit x hc =>
     simp only [PhaseInv, hc] at hph
-    obtain ⟨hlen, hnc⟩ := hI.liveInv (by simp [hc, live])
+    obtain ⟨hlen, hnc, hpi⟩ := hI.liveInv (by simp [hc, live])
     refine { hI with args := ?_, doneVal := ?_, qRange := range_snoc hI.qRange hI.qLen (by simp), qLen := ?_,
                      qBound := ?_, pendInQ := ?_, pulledGe := ?_, pulledLe := ?_, bufInv := ?_,
                      startedLe := ?_, runLe := ?_, liveInv := ?_, phase := ?_ }
@@ -734,19 +811,22 @@ theorem inv_consumer (hI : Inv w b ek tk f src₀ ending s) (h : step s .consume
     · have := hI.startedLe; simp [nPending_append]; omega
     · have := hI.runLe; simpa [nRunning_append] using this
     · intro _
-      refine ⟨by simp <;> omega, forall_append hnc (by simp)⟩
+      refine ⟨by simp <;> omega, forall_append hnc (by simp), ?_⟩
+      refine forall_append (fun j z st hj hlt => hpi j z st hj ?_) (fun hlt => ?_)
+      · simp at hlt; omega
+      · simp at hlt; omega
     · simp only [PhaseInv]; simp <;> omega
   case drainEmpty hc hq =>
     simp only [PhaseInv, hc] at hph
-    obtain ⟨hlen, hnc⟩ := hI.liveInv (by simp [hc, live])
+    obtain ⟨hlen, hnc, hpi⟩ := hI.liveInv (by simp [hc, live])
     refine { hI with liveInv := ?_, phase := ?_ }
     · intro h; simp [live] at h
     · simp only [PhaseInv, ExitInv]
-      refine ⟨by simp, fun _ => ?_⟩
+      refine ⟨by simp, by simp, fun _ => ⟨?_, hpi.noActive (by simp [hq])⟩⟩
       simp [hq, hph.2] at hlen hsl ⊢; omega
   case drainOk i rest y v hc hq hf =>
     simp only [PhaseInv, hc] at hph
-    obtain ⟨hlen, hnc⟩ := hI.liveInv (by simp [hc, live])
+    obtain ⟨hlen, hnc, hpi⟩ := hI.liveInv (by simp [hc, live])
     obtain ⟨hi, hr⟩ := range_cons hq hI.qRange hI.qLen
     have hq' : s.q.length = rest.length + 1 := by simp [hq]
     have hiD : i = s.delivered.length := by omega
@@ -762,11 +842,15 @@ theorem inv_consumer (hI : Inv w b ek tk f src₀ ending s) (h : step s .consume
       have : j ≠ i := by rintro rfl; rw [hf] at hj; subst hst; simp at hj
       simp <;> omega
     · simp <;> omega
-    · intro _; exact ⟨by simp <;> omega, hnc⟩
+    · intro _
+      refine ⟨by simp <;> omega, hnc, ?_⟩
+      have := hpi.pop hf (by omega)
+      have he : s.futs.length - rest.length = s.futs.length - s.q.length + 1 := by omega
+      simpa [he] using this
     · simp only [PhaseInv]; exact hph
   case drainErr i rest y e hc hq hf =>
     simp only [PhaseInv, hc] at hph
-    obtain ⟨hlen, hnc⟩ := hI.liveInv (by simp [hc, live])
+    obtain ⟨hlen, hnc, hpi⟩ := hI.liveInv (by simp [hc, live])
     obtain ⟨hi, hr⟩ := range_cons hq hI.qRange hI.qLen
     have hq' : s.q.length = rest.length + 1 := by simp [hq]
     have hiD : i = s.delivered.length := by omega
@@ -781,13 +865,15 @@ theorem inv_consumer (hI : Inv w b ek tk f src₀ ending s) (h : step s .consume
       simp <;> omega
     · intro h; simp [live] at h
     · simp only [PhaseInv, ExitInv]
-      refine ⟨by simp, fun _ => .inr ?_⟩
+      refine ⟨by simp, by simp, fun _ => .inr ?_⟩
       rw [← hiD, hy]; simp [hv]
   case cancelEmpty hc ht hq =>
     refine { hI with liveInv := ?_, phase := ?_ }
     · intro h; simp [live] at h
     · simp only [PhaseInv, ExitInv]
-      refine ⟨fun _ _ j z st hj => ?_, by simp⟩
+      refine ⟨fun _ _ j z st hj => ?_, fun _ htp => ?_, by simp⟩
+      rotate_left
+      · rw [← hI.htk, ht] at htp; cases htp
       cases st <;> simp [isPending]
       have := hI.pendInQ j z _ hj rfl
       have := getElem?_lt hj
@@ -832,8 +918,9 @@ theorem inv_consumer (hI : Inv w b ek tk f src₀ ending s) (h : step s .consume
     refine { hI with liveInv := ?_, phase := ?_ }
     · intro h; simp [live] at h
     · simp only [PhaseInv, ExitInv]
-      refine ⟨fun _ hne => ?_, by simp⟩
-      rw [← hI.htk] at hne; exact absurd ht hne
+      refine ⟨fun _ hne => ?_, fun _ htp => ?_, by simp⟩
+      · rw [← hI.htk] at hne; exact absurd ht hne
+      · rw [← hI.htk, ht] at htp; cases htp
   case cancelTerminate hc ht =>
     refine { hI with args := ?_, doneVal := ?_, qRange := ?_, qLen := ?_, pendInQ := ?_,
                      pulledGe := ?_, pulledLe := ?_, bufInv := ?_, startedLe := ?_, runLe := ?_,
@@ -852,7 +939,7 @@ theorem inv_consumer (hI : Inv w b ek tk f src₀ ending s) (h : step s .consume
     · simp [nRunning_kill]
     · intro h; simp [live] at h
     · simp only [PhaseInv, ExitInv]
-      exact ⟨fun _ _ => (noActive_kill _).noPending, by simp⟩
+      exact ⟨fun _ _ => (noActive_kill _).noPending, fun _ _ => noActive_kill _, by simp⟩
   case exitWaitAll r closed hc hk hall =>
     simp only [PhaseInv, hc] at hph
     refine { hI with liveInv := ?_, phase := ?_ }
@@ -880,14 +967,44 @@ theorem inv_consumer (hI : Inv w b ek tk f src₀ ending s) (h : step s .consume
     · simp [nRunning_kill]
     · intro h; simp [live] at h
     · simp only [PhaseInv]
-      exact ⟨⟨fun _ _ => (noActive_kill _).noPending, hph.2⟩, fun _ => noActive_kill _⟩
+      exact ⟨⟨fun _ _ => (noActive_kill _).noPending, fun _ _ => noActive_kill _,
+        fun hcl => by subst hcl; have := hph.2.2 rfl; cases r <;> simp_all [noActive_kill]⟩,
+        fun _ => noActive_kill _⟩
   case exitLeave r closed hc hk =>
     simp only [PhaseInv, hc] at hph
     refine { hI with liveInv := ?_, phase := ?_ }
     · intro h; simp [live] at h
     · simp only [PhaseInv]
-      refine ⟨hph, fun hne => ?_⟩
-      rw [← hI.hek] at hne; exact absurd hk hne
+      exact ⟨hph, quiescent_of_exitInv hph (by rw [← hI.hek, hk]; simp) (by rw [← hI.hek, hk]; simp)
+        (by rw [← hI.hek, hk]; simp)⟩
+  case exitErrKill e closed hc hk =>
+    simp only [PhaseInv, hc] at hph
+    refine { hI with args := ?_, doneVal := ?_, qRange := ?_, qLen := ?_, pendInQ := ?_,
+                     pulledGe := ?_, pulledLe := ?_, bufInv := ?_, startedLe := ?_, runLe := ?_,
+                     liveInv := ?_, phase := ?_ }
+    · exact forall_kill (fun j z st hj _ => hI.args j z st hj) (fun j z old hj _ => hI.args j z old hj)
+    · exact forall_kill (fun j z st hj _ => hI.doneVal j z st hj) (fun j z old hj _ r hr => by cases hr)
+    · simpa using hI.qRange
+    · simpa using hql
+    · intro j z st hj hst
+      have := noActive_kill _ j z st hj
+      subst hst; simp [isActive] at this
+    · simpa using hpg
+    · simpa using hpl
+    · simpa using hbuf
+    · have := hI.startedLe; simp [nPending_kill]; omega
+    · simp [nRunning_kill]
+    · intro h; simp [live] at h
+    · simp only [PhaseInv]
+      exact ⟨⟨fun _ _ => (noActive_kill _).noPending, fun _ _ => noActive_kill _, hph.2.2⟩,
+        fun _ => noActive_kill _⟩
+  case exitErrNone closed hc hk =>
+    simp only [PhaseInv, hc] at hph
+    refine { hI with liveInv := ?_, phase := ?_ }
+    · intro h; simp [live] at h
+    · simp only [PhaseInv]
+      exact ⟨hph, quiescent_of_exitInv hph (by rw [← hI.hek, hk]; simp) (by rw [← hI.hek, hk]; simp)
+        (by simp)⟩
 
 /-! ### preservation: the environment (`resume`, `close`) and the pool (`start`, `finish`) -/
 
@@ -932,8 +1049,11 @@ theorem inv_start (hI : Inv w b ek tk f src₀ ending s) (h : step s .start = so
   · have := hI.startedLe; simp; omega
   · have := hI.hw; rw [numRunning_eq] at hnr; simp; omega
   · intro hl
-    obtain ⟨hlen, hnc⟩ := hI.liveInv hl
-    exact ⟨by simpa using hlen, forall_setF (fun j z st hj _ => hnc j z st hj) hf (by simp)⟩
+    obtain ⟨hlen, hnc, hpi⟩ := hI.liveInv hl
+    refine ⟨by simpa using hlen, forall_setF (fun j z st hj _ => hnc j z st hj) hf (by simp), ?_⟩
+    refine forall_setF (fun j z st hj _ hlt => hpi j z st hj (by simpa using hlt)) hf (fun hlt => ?_)
+    have := hI.pendInQ _ _ _ hf rfl
+    simp at hlt; omega
   · refine PhaseInv_congr (s := s) rfl rfl (by simp) rfl rfl rfl (fun hp => ?_) (fun ha => ?_) hI.phase
     · exact forall_setF (fun j z st hj _ => hp j z st hj) hf (by simp [isPending])
     · have := ha _ _ _ hf; simp [isActive] at this
@@ -960,8 +1080,9 @@ theorem inv_finish {i : Nat} (hI : Inv w b ek tk f src₀ ending s) (h : step s 
   · have := hI.startedLe; simp; omega
   · have := hI.runLe; simp; omega
   · intro hl
-    obtain ⟨hlen, hnc⟩ := hI.liveInv hl
-    exact ⟨by simpa using hlen, forall_setF (fun j z st hj _ => hnc j z st hj) hf (by simp)⟩
+    obtain ⟨hlen, hnc, hpi⟩ := hI.liveInv hl
+    refine ⟨by simpa using hlen, forall_setF (fun j z st hj _ => hnc j z st hj) hf (by simp), ?_⟩
+    exact forall_setF (fun j z st hj _ hlt => hpi j z st hj (by simpa using hlt)) hf (fun _ => rfl)
   · refine PhaseInv_congr (s := s) rfl rfl (by simp) rfl rfl rfl (fun hp => ?_) (fun ha => ?_) hI.phase
     · exact forall_setF (fun j z st hj _ => hp j z st hj) hf (by simp [isPending])
     · exact forall_setF (fun j z st hj _ => ha j z st hj) hf (by simp [isActive])
@@ -1028,7 +1149,7 @@ theorem head_progress (hI : Inv w b ek tk f src₀ ending s) (hw : 1 ≤ w) (hli
     (∃ y r, s.futs[i]? = some (y, .done r)) ∨
     (∃ s', step s .start = some s') ∨ (∃ i s', step s (.finish i) = some s') := by
   obtain ⟨hi, _⟩ := range_cons hq hI.qRange hI.qLen
-  obtain ⟨_, hnc⟩ := hI.liveInv hlive
+  obtain ⟨_, hnc, _⟩ := hI.liveInv hlive
   have hlt : i < s.futs.length := by omega
   have hget := List.getElem?_eq_getElem hlt
   rcases hfi : s.futs[i] with ⟨y, st⟩
@@ -1097,6 +1218,7 @@ theorem no_deadlock_inv (hI : Inv w b ek tk f src₀ ending s) (hw : 1 ≤ w) (h
         simp [step, hc, hek, hall]
     | killAll => left; simp [step, hc, hek]
     | leaveRunning => left; simp [step, hc, hek]
+    | killOnError => left; cases r <;> simp [step, hc, hek]
   | done r cl => simp [isDone, hc] at hnd
 
 /-! ## Reachability is closed under steps and runs -/
